@@ -176,6 +176,55 @@ def c05_jobs(tier):
     return jobs
 
 
+def c15_jobs(tier):
+    jobs = []
+    T = dict(timeout_s=(250 if tier == "quick" else 3300))
+    types = [0, 3, 1, 2, 5, 9, 12] if tier == "quick" else list(range(14))
+    ks = [(1, 1)] if tier == "quick" else [(1, 1), (2, 2), (3, 1), (20, 20), (19, 20)]
+    for typ in types:
+        for form in range(4):
+            for c in ([0, 1, 2] if tier == "quick" else [0, 1, 2, 3, 4]):
+                for ka, kb in ks:
+                    jobs.append(J("sml", "ZZ_C15_literal", typ=typ, form=form, c=c, ka=ka, kb=kb, sp=0, **T))
+            jobs.append(J("sml", "ZZ_C15_literal", typ=typ, form=form, c=1, ka=2, kb=2, sp=1, **T))
+    for form in range(4):
+        for c in ([0, 1, 3] if tier == "quick" else [0, 1, 2, 3, 4, 12]):
+            for ka, kb in ([(1, 1)] if tier == "quick" else [(1, 1), (2, 2), (1, 3)]):
+                jobs.append(J("sml", "ZZ_C15_asciivar", form=form, c=c, ka=ka, kb=kb, sp=(c % 2), **T))
+    for c in (0, 1, 2, 5):
+        jobs.append(J("sml", "ZZ_C15_direct", c=c))
+    return jobs
+
+
+SKEL_LEN = [49, 40, 6, 27, 51, 28]
+
+
+def c06_jobs(tier):
+    jobs = [J("sml", "ZZ_C06_base")]
+    T = dict(timeout_s=(270 if tier == "quick" else 3300))
+    for k in ([0, 1, 2, 3] if tier == "quick" else [0, 1, 2, 3, 4]):
+        jobs.append(J("sml", "ZZ_C06_raw", k=k, **T))
+    for sk in range(6):
+        # one arbitrary byte at every position: sharded by position ranges via explicit pos
+        for pos in range(SKEL_LEN[sk] + 1):
+            if tier == "quick" and sk in (0, 4) and pos % 2 == 1:
+                continue
+            jobs.append(J("sml", "ZZ_C06_soup", sk=sk, n=1, pos=pos, **T))
+        if tier != "quick":
+            for pos in range(SKEL_LEN[sk] + 1):
+                jobs.append(J("sml", "ZZ_C06_soup", sk=sk, n=2, pos=pos, **T))
+    hot = [(0, 4), (0, 17), (0, 22), (1, 6), (1, 19), (1, 30), (3, 10), (3, 17), (2, 4), (5, 20)]
+    if tier == "quick":
+        for sk, pos in hot[:4]:
+            jobs.append(J("sml", "ZZ_C06_soup", sk=sk, n=2, pos=pos, **T))
+    for which in range(10):
+        for k in ([1, 3, 10] if tier == "quick" else [1, 2, 3, 5, 8, 10, 12, 19, 20]):
+            if tier == "quick" and k == 10 and which in (3, 6, 9):
+                continue  # 10-digit value literals are solver-heavy: thorough tier
+            jobs.append(J("sml", "ZZ_C06_numbers", which=which, k=k, **T))
+    return jobs
+
+
 def c12_jobs(tier):
     jobs = []
     for w in (1, 2, 4, 8, 0, 3):
@@ -216,6 +265,16 @@ def smoke_jobs(tier):
 
 
 PROPS = {
+    "C06": dict(jobs=c06_jobs, must_reach=["end"],
+                level_text="Bounded model checking of totality: the whole lexer+parser is executed symbolically on arbitrary byte strings, on SML skeletons with arbitrary bytes inserted at every position, and on texts whose size/count/code numbers have symbolic digits; on every path no panic escapes, the run terminates (channel deadlock and fuel exhaustion are reported), errors imply no messages, diagnostics carry an in-range 'Ln x, Col y: ', and no allocation request is sized by a number in the text (witnesses measured natively).",
+                level_note="Trusted: go/ssa, engine (buffered-channel FIFO model of the lexer's token channel, regexp simulation), z3. Memory verdicts are native TotalAlloc measurements of solver witnesses.",
+                bounds={"quick": "arbitrary strings k<=3 bytes; 6 skeletons x 1 arbitrary byte at (every / every second) position, 2 bytes at 4 positions; numbers with 1, 3, 10 digits in 10 places", "thorough": "k<=4; 2 arbitrary bytes at every position; numbers up to 20 digits"},
+                outside=["inputs longer than the bound", "runtime-fatal stack exhaustion on megabyte-deep nesting", "coverage-guided mutation (different technique)"]),
+    "C15": dict(jobs=c15_jobs, must_reach=["end"],
+                level_text="Bounded model checking: the digits of both bounds of every declaration form are symbolic and run through the real lexer, strconv.Atoi (interpreted from SSA, overflow clamp included) and parser; accept/reject and the size error's text and position are compared with the bounds computed by the harness.",
+                level_note="Trusted: go/ssa, engine, z3.",
+                bounds={"quick": "7 item types x 4 forms x counts 0..2, 1 digit per bound (+ a blank-padded variant with 2 digits)", "thorough": "14 types, counts 0..4, up to 20 digits per bound"},
+                outside=["declarations preceded by whitespace (position shift is C08)", "counts above 4"]),
     "C05": dict(jobs=c05_jobs, must_reach=["end"],
                 level_text="Bounded model checking: message texts with literal holes whose every digit/character is symbolic are run through the real lexer and parser (regexp, strconv.ParseInt/ParseUint interpreted from their SSA); the denoted value is computed by the harness from the hole bytes and compared with the stored bytes; unrepresentable literals must give an error and no message.",
                 level_note="Trusted: go/ssa, engine incl. regexp simulation and string models, z3. Float text->value conversion is trusted strconv (concrete menu only).",
